@@ -400,4 +400,34 @@ theorem monoInv_run (hw : List UInt8) (t0 : Int × Nat) (acts : List Act) : ∀ 
     obtain ⟨r1, r2⟩ := ih _ (monoInv_step hw t0 s a h h1) hw'.1
     exact ⟨r1, readingLe_trans _ _ _ hw'.2 r2⟩
 
+/-! ### the driver's monitors answer `true` on runs that satisfy what they check -/
+
+theorem monFold_true (lo hi : Nat) : ∀ (rs : List Ret) (last : List (Nat × Nat)),
+    (∀ r ∈ rs, lo ≤ timestamp r.uuid ∧ timestamp r.uuid ≤ hi) →
+    rs.Pairwise (fun a b => a.g = b.g → timestamp a.uuid ≤ timestamp b.uuid) →
+    (∀ p ∈ last, ∀ r ∈ rs, r.g = p.1 → p.2 ≤ timestamp r.uuid) →
+    (rs.foldl (monStep lo hi) (true, last)).1 = true := by
+  intro rs
+  induction rs with
+  | nil => intro last _ _ _; rfl
+  | cons r rs ih =>
+    intro last hb hp hl
+    have hr := hb r (List.mem_cons_self ..)
+    have hprev : ((last.find? (·.1 == r.g)).map (·.2)).getD 0 ≤ timestamp r.uuid := by
+      cases hf : last.find? (·.1 == r.g) with
+      | none => simp
+      | some p =>
+        have hm := List.mem_of_find?_eq_some hf
+        have hg : p.1 = r.g := by simpa using List.find?_some hf
+        simpa using hl p hm r (List.mem_cons_self ..) hg.symm
+    have hstep : monStep lo hi (true, last) r = (true, (r.g, timestamp r.uuid) :: last.filter (·.1 != r.g)) := by
+      simp only [monStep, hr.1, hr.2, hprev, decide_true, Bool.and_self]
+    rw [List.foldl_cons, hstep]
+    rw [List.pairwise_cons] at hp
+    apply ih _ (fun x hx => hb x (List.mem_cons_of_mem _ hx)) hp.2
+    intro p hpm x hx hg
+    rcases List.mem_cons.mp hpm with rfl | hpm
+    · exact hp.1 x hx hg.symm
+    · exact hl p (List.mem_filter.mp hpm).1 x (List.mem_cons_of_mem _ hx) hg
+
 end Uuid
